@@ -54,7 +54,7 @@ LEVEL_TEXT = (
 )
 LEVEL_NOTE = "Trusted: the snapshot normaliser and the conformance oracle (hv/gen/annotations.py), Python's == on stored attribute values."
 
-CLASSES = {"quick": 2400, "thorough": 60000}
+CLASSES = {"quick": 2800, "thorough": 60000}
 
 FIXED = '''
 class Node(State):
@@ -290,7 +290,7 @@ class Attack:
             R.monitor("value-stable", ok, where={**w0, "kind": "value-changed", "after": step.split(":")[0]}, detail=f"after {history}: snapshot {snap!r} != initial {snap0!r} (== twin: {twin is None or inst == twin})", case={**case, "history": list(history)})
 
         for _ in range(rng.randint(1, 8)):
-            kind = rng.choice(["setattr", "setattr-new", "delattr", "alias", "alias", "alias", "alias", "inner", "inner", "inner", "updated-valid", "updated-invalid", "updated-unknown", "updated-lookalike", "updated-lookalike", "copy", "deepcopy", "compare"])
+            kind = rng.choice(["setattr", "setattr-new", "delattr", "alias", "alias", "alias", "alias", "inner", "inner", "inner", "updated-valid", "updated-invalid", "updated-unknown", "updated-lookalike", "updated-lookalike", "copy", "deepcopy", "compare", "as-dict-edit", "as-dict-edit"])
             an = rng.choice(list(terms))
             if kind == "alias":
                 with_c = [a for a in terms if anyfree[a] and mutable_containers(args[a])]
@@ -312,6 +312,33 @@ class Attack:
                     raised = True
                 history.append(f"{kind}:{target}")
                 R.monitor("frozen", raised, where={**w0, "kind": f"{kind}-accepted"}, detail=f"{kind}({target}) did not raise on {inst!r}", case={**case, "history": list(history)})
+            elif kind == "as-dict-edit":
+                # the dictionary handed out by as_dict() belongs to the caller: editing it must not reach the instance
+                op = rng.choice(["setitem", "pop", "clear", "update", "new-key"])
+                history.append(f"as-dict-edit:{op}")
+                try:
+                    d = inst.as_dict()
+                    d2 = inst.as_dict()
+                    if op == "setitem" and d:
+                        d[rng.choice(list(d))] = "edited"
+                    elif op == "pop" and d:
+                        d.pop(rng.choice(list(d)))
+                    elif op == "clear":
+                        d.clear()
+                    elif op == "update":
+                        d.update({k: "edited" for k in d})
+                    else:
+                        d["hv_new_key"] = 1
+                    separate = d is not d2
+                except BaseException as exc:  # noqa: BLE001
+                    R.monitor("value-stable", False, where={**w0, "kind": "as-dict-raised", "error": type(exc).__name__}, detail=f"as_dict() / editing its result raised {exc!r}", case={**case, "history": list(history)})
+                    continue
+                R.count("as_dict_results_edited")
+                snap = self.snapshot(inst)
+                R.monitor("no-aliasing", snap == snap0 and separate, where={**w0, "kind": "as-dict-result-aliases-instance", "op": op},
+                          detail=f"editing the result of as_dict() ({op}) changed the instance (or two results are one object: separate={separate}): {snap!r} vs {snap0!r}", case={**case, "history": list(history)})
+                if snap != snap0:
+                    break
             elif kind == "alias":
                 cands = mutable_containers(args[an]) if anyfree[an] else []
                 if not cands:
